@@ -247,7 +247,7 @@ func checkEmit(c EmitCase) (v ev.Verdict) {
 }
 
 func TestC08Emit(t *testing.T) {
-	ev.Run(t, ev.Opts{Property: "C08", Name: "emit", Quick: 5000, Thorough: 300000,
+	ev.Run(t, ev.Opts{Property: "C08", Name: "emit", Quick: 5000, Thorough: 120000,
 		Rule: "lively deterministic specs whose ECMAScript actions and guards emit, mutate and fail (throw, bad return value, unserialisable emission, timeout) after the k-th emit, walked over 1-5 messages, and hosted in an sio crew; each stride's emissions must be exactly its action's emissions if the action completed and none otherwise, DoEmitted the concatenation, the crew's Result.Emitted the per-walk batches; non-trivial = an action emitted and then failed, or >= 2 emitting actions completed"},
 		genEmit, checkEmit)
 }
